@@ -71,6 +71,20 @@ Theorem global_balance_after_step :
 Proof. exact @global_after_step_lemma. Qed.
 Print Assumptions global_balance_after_step.
 
+(* 5. load aggregation of ConstFlow (sinks, sources, mass storages; scaling, sign, in_service;
+      any labels and row order): LOAD of node i grows by the sum over the rows attached to i *)
+Theorem load_aggregation :
+  forall (A : Type) (zero one : A) (add mul sub : A -> A -> A) (opp : A -> A),
+  ring_theory zero one add mul sub opp eq ->
+  forall (sign : A) (pos : Z -> nat) (rows : list (@cf_row A)) (loads : list A) (i : nat),
+  (forall r r', In r rows -> In r' rows -> pos (cf_junction r) = pos (cf_junction r') -> cf_junction r = cf_junction r') ->
+  i < length loads ->
+  nth i (constflow_entries zero one add mul sign pos rows loads) zero =
+  add (nth i loads zero)
+      (sumlist zero add (map (cf_value zero one mul sign) (filter (fun r => Nat.eqb (pos (cf_junction r)) i) rows))).
+Proof. exact @load_aggregation_lemma. Qed.
+Print Assumptions load_aggregation.
+
 (* ---------------------------------------------------------------- non-vacuity: a meshed net with two parallel
    branches, a self loop and two slack nodes; x is a solution of its assembled system at Z *)
 Definition ex_nodes : list (@node Z) :=
@@ -102,4 +116,11 @@ Qed.
 Example example_balance :
   map (fun i => (inflow 0 Z.add Z.sub (fun k => ex_m k - ex_x (5 + k) * 1) i ex_branches - load_of 0%Z ex_nodes i)%Z) [1; 2; 4]
   = [0; 0; 0]%Z.
+Proof. vm_compute. reflexivity. Qed.
+
+(* load aggregation on a concrete table: labels 100005 / 7 / 3 in arbitrary row order, two rows on one junction,
+   scaling, an out-of-service row, sign -1 (sources); hypotheses of theorem 5 hold (pos is injective) *)
+Example example_load_aggregation :
+  constflow_entries 0%Z 1%Z Z.add Z.mul (-1)%Z (zassoc [(100005%Z, 2); (7%Z, 0); (3%Z, 1)] 9)
+    [cf 100005 4 2 true; cf 3 5 1 true; cf 100005 1 3 true; cf 7 6 1 false] [10; 20; 30]%Z = [10; 15; 19]%Z.
 Proof. vm_compute. reflexivity. Qed.
